@@ -980,6 +980,15 @@ class Data(object):
         else: #pass on to superclass
             super(Data,self).__setattr__(key,value)
 
+    def __delattr__(self, key):
+        """Convert delattr to delitem on self.__dict__ so that the odict
+           key order stays in step with its contents
+        """
+        if key in self.__dict__:
+            self.__dict__.__delitem__(key)
+        else:
+            super(Data,self).__delattr__(key)
+
     def __repr__(self):
         """
         Representation
